@@ -89,7 +89,9 @@ def reformat_file(
         raise ValueError("Cannot use `inplace` with stdin")
 
     if read_stdin:
-        text = sys.stdin.read()
+        # Same newline translation as `Path.read_text()` below (on POSIX `sys.stdin` does none),
+        # so that a CRLF document gives the same result from stdin as from a file.
+        text = sys.stdin.read().replace("\r\n", "\n").replace("\r", "\n")
     else:
         text = Path(path).read_text()
 
